@@ -62,6 +62,10 @@ def timing_xml(sid, kind, started=None, ended=None):
         parts.append(f'<TextTime>{d}</TextTime><MediaTime>{d * 256}</MediaTime>')
     elif kind == 'dur+text':
         parts.append(f'<StoryDuration>{d}</StoryDuration><TextTime>{d * 256}</TextTime>')
+    elif kind == 'zero':            # a known duration of zero seconds (boundary value: falsy but not missing)
+        parts.append('<StoryDuration>0</StoryDuration>')
+    elif kind == 'zero-text':
+        parts.append('<TextTime>0</TextTime><MediaTime>0</MediaTime>')
     elif kind in ('none', 'nometa'):
         pass
     else:
@@ -117,6 +121,8 @@ P_KINDS = {
     'unicode': 'café \U0001F600 é &amp; &lt;b&gt;',
     'padded-plain': '  spaced text \n',
     'mixed-br': '(a) and (b)',
+    'round-angle': '(opens round, closes angle&gt;',
+    'angle-round': '&lt;opens angle, closes round)',
 }
 
 
